@@ -62,6 +62,11 @@ pub enum P {
     /// a parameter the script does not use (one dummy value)
     UnusedStr,
     UnusedChar,
+    /// Unicode sweep: which context a code point is embedded in
+    /// (`in_context`), for the case mappings / the trims / the lengths
+    CtxCase,
+    CtxTrim,
+    CtxLen,
     /// List methods (C10 survival only; their meaning is C15's)
     ListU64,
     ListStr,
@@ -76,6 +81,7 @@ pub enum Ref {
     Unspecified,
 }
 
+#[derive(Clone)]
 pub struct Op {
     /// short name of the primary built-in, e.g. `String.repeat`
     pub name: String,
@@ -95,18 +101,52 @@ pub struct Op {
     /// the same built-in under the signature it gets once a recorded defect
     /// is repaired (used when the primary script no longer compiles)
     pub alt: Option<Alt>,
+    /// The enumerated tuple is not the argument tuple itself: this maps it to
+    /// the arguments the script / reference / direct call receive (Unicode
+    /// sweep: (code point, context) -> receiver string). The domain of all
+    /// 1.1 M code points times contexts is never materialised as strings.
+    pub arg_map: Option<fn(&[V]) -> Vec<V>>,
     /// StringBuf push sequence: the reference replays the pushes that the
     /// parameter kinds mark as used (`buf_reference`)
     pub buf_seq: bool,
 }
 
+#[derive(Clone)]
 pub struct Alt {
     pub cover: String,
     pub script: String,
     pub bind: fn(&mut Package<NoCtx>, &str) -> Result<Caller, String>,
 }
 
+/// contexts of the Unicode sweep
+pub const CONTEXTS: [&str; 7] = ["c", "a+c", "c+B", "c+c", "c+a+c", "space+c+space", "newline+c+newline"];
+
+/// the code point `c` embedded in context number `ctx`
+pub fn in_context(c: char, ctx: u64) -> String {
+    match ctx {
+        0 => format!("{c}"),
+        1 => format!("a{c}"),
+        2 => format!("{c}B"),
+        3 => format!("{c}{c}"),
+        4 => format!("{c}a{c}"),
+        5 => format!(" {c} "),
+        6 => format!("\n{c}\n"),
+        _ => panic!("harness: unknown context {ctx}"),
+    }
+}
+
+fn sweep_args(a: &[V]) -> Vec<V> {
+    vec![V::Str(in_context(a[0].c(), a[1].u()))]
+}
+
 impl Op {
+    /// the arguments the built-in actually receives for an enumerated tuple
+    pub fn real_args(&self, enumerated: Vec<V>) -> Vec<V> {
+        match self.arg_map {
+            Some(m) => m(&enumerated),
+            None => enumerated,
+        }
+    }
     /// the documented result for these arguments (None: no reference, List.*)
     pub fn expected(&self, a: &[V]) -> Option<Ref> {
         if self.buf_seq {
@@ -154,6 +194,7 @@ impl B {
             is_list: name.starts_with("List."),
             buf_seq: false,
             alt: None,
+            arg_map: None,
         });
     }
 }
@@ -971,6 +1012,26 @@ pub fn ops() -> Vec<Op> {
         r!(|a| is(V::Str(format!("{}|{}{}{}", a[0].s(), a[0].s(), a[1].c(), a[2].s())))),
         None,
     );
+
+    // ------------------------------------------------------------ Unicode sweep
+    // The String built-ins whose result depends on per-character Unicode
+    // properties, on EVERY Unicode scalar value embedded in a few contexts
+    // (the string alphabet above has 8 symbols and e.g. no titlecase letter).
+    for (name, ctx) in [
+        ("String.to_lowercase", P::CtxCase),
+        ("String.to_uppercase", P::CtxCase),
+        ("String.trim", P::CtxTrim),
+        ("String.trim_start", P::CtxTrim),
+        ("String.trim_end", P::CtxTrim),
+        ("StringChars.len", P::CtxLen),
+        ("StringBytes.len", P::CtxLen),
+    ] {
+        let mut op = b.v.iter().find(|o| o.name == name && o.form == "method").expect("sweep base op").clone();
+        op.form = "method, every code point in context".into();
+        op.params = vec![P::Char, ctx];
+        op.arg_map = Some(sweep_args);
+        b.v.push(op);
+    }
 
     // ------------------------------------------------------------ List (C10 only)
     list_ops(&mut b);
